@@ -198,7 +198,10 @@ func genStep(r *vh.Rand, scenario bool, thorough bool, idx int, prevTok string, 
 		}
 		return "ok"
 	}
-	switch k := r.Intn(24); {
+	switch k := r.Intn(26); {
+	case k >= 24:
+		body = r.Pick([]string{"hello", "", jsonOK, "x"})
+		beh, conn, status, bodyok = genSizeLie(r, body, false)
 	case k < 8:
 		status = r.PickInt([]int{200, 200, 201, 204, 301, 304, 400, 404, 418, 500, 503, 599, 999})
 		body = pickBody()
@@ -267,6 +270,38 @@ func genStep(r *vh.Rand, scenario bool, thorough bool, idx int, prevTok string, 
 	return fmt.Sprintf("%s %s %d %d %s %s %s %s -", beh, conn, status, bodyok, bf, vh.HexS(tok), pp, tmpl), tok, plain
 }
 
+// announced sizes (Content-Length / chunk size) versus what is sent: one byte short, a little short, and numbers up to
+// the largest net/http accepts (2^63-1); the honest value is there too
+var lieLens = []string{"+1", "+100", "65536", "2147483647", "2147483648", "4294967296", "1099511627776", "140737488355328",
+	"281474976710657", "9007199254740992", "4611686018427387904", "9223372036854775807"}
+var chunkSizes = []string{"6", "ff", "7fffffff", "ffffffff", "7fffffffffffffff", "ffffffffffffffff", "fffffffffffffffff", "-5", "zz"}
+
+// genSizeLie returns behaviour and the abstract response the generator claims for a step whose target announces
+// a body size and then sends [body] and closes.
+func genSizeLie(r *vh.Rand, body string, h2 bool) (beh, conn string, status, bodyok int) {
+	status = r.PickInt([]int{200, 200, 200, 404, 500})
+	if h2 {
+		v := r.Pick(lieLens[2:])
+		return "h2lie:" + v, "ok", status, 0
+	}
+	switch k := r.Intn(10); {
+	case k < 6:
+		v := r.Pick(lieLens)
+		if v[0] == '+' {
+			var d int
+			fmt.Sscanf(v[1:], "%d", &d)
+			v = fmt.Sprint(len(body) + d)
+		}
+		return "lielen:" + v, "ok", status, 0
+	case k < 7:
+		return "lielen:" + fmt.Sprint(len(body)), "ok", status, 1 // honest, connection closed afterwards
+	case k < 8:
+		return "ovflen", "proto", 0, 0
+	default:
+		return "chunksz:" + r.Pick(chunkSizes), "ok", status, 0
+	}
+}
+
 // gun options: mostly defaults, otherwise any combination of dump / trace / debug logging / answlog filter
 func genOpts(r *vh.Rand) string {
 	if r.Chance(1, 3) {
@@ -294,6 +329,9 @@ func genEngH2(r *vh.Rand) string {
 			beh, conn, status, bodyok, body = "h2abort", "reset", 0, 0, ""
 		case k < 9 && mode != 2:
 			beh, bodyok, body = "h2trunc", 0, "hello"
+			if r.Chance(1, 2) {
+				beh, conn, status, bodyok = genSizeLie(r, body, true)
+			}
 		}
 		bf := vh.HexS(body)
 		if strings.HasPrefix(body, "@") {
@@ -382,6 +420,101 @@ func genEng(r *vh.Rand, thorough bool) string {
 	return line
 }
 
+// scenario steps as genStep makes them, with the pp / tmpl / pre fields the caller wants
+func fastStep(r *vh.Rand, scenario bool) string {
+	beh, conn, status, bodyok, body := "status", "ok", 200, 1, "ok"
+	switch k := r.Intn(12); {
+	case k < 7:
+		status = r.PickInt([]int{200, 200, 201, 204, 404, 500, 503})
+		body = r.Pick([]string{"ok", "", jsonOK, htmlOK})
+		if status == 204 {
+			body = ""
+		}
+	case k < 8:
+		beh, conn, status, bodyok, body = "close", "eof", 0, 0, ""
+	case k < 9:
+		beh, conn, status, bodyok, body = "rst", "reset", 0, 0, ""
+	case k < 10:
+		beh, conn, status, bodyok, body = "garbage", "proto", 0, 0, ""
+	case k < 11:
+		beh, bodyok, body = "truncbody", 0, "hello"
+	default:
+		beh, body = "nolen", "ok"
+	}
+	tok, pp := "", "-"
+	if scenario && conn == "ok" {
+		switch r.Intn(4) {
+		case 0:
+			tok, pp = r.Pick(tokVals[1:10]), "h:-"
+		case 1:
+			pp = "j:" + vh.B(body == jsonOK)
+		case 2:
+			pp = fmt.Sprintf("a:%d:%s", r.PickInt([]int{0, 200}), vh.HexS("ok"))
+		}
+	}
+	return fmt.Sprintf("%s %s %d %d %s %s %s - -", beh, conn, status, bodyok, vh.HexS(body), vh.HexS(tok), pp)
+}
+
+// genEngNamed: the target is given by host name. Mode 3: it refuses connections while the config is decoded (so the
+// guns keep the process-wide DNS-caching dialer) and accepts from the start of the run on, when several instances make
+// their first dials at the same moment and later ones follow; mode 4: reachable all the time.
+func genEngNamed(r *vh.Rand) string {
+	gun := r.Pick([]string{"http", "http", "scenario"})
+	mode := r.PickInt([]int{3, 3, 3, 4})
+	inst := r.PickInt([]int{2, 4, 8, 16})
+	n, iters := r.Range(6, 12), 1
+	if gun == "scenario" {
+		n, iters = r.Range(1, 3), r.Range(inst, 2*inst)
+	}
+	line := fmt.Sprintf("eng %s %s %d %d %s %d %d", gun, vh.B(r.Chance(1, 3)), inst, mode, genOpts(r), iters, n)
+	for i := 0; i < n; i++ {
+		line += " " + fastStep(r, gun == "scenario")
+	}
+	return line
+}
+
+// genEngSizes: short runs about announced sizes: one of the first two steps answers with a size the body does not have;
+// scenario steps mostly read the body (postprocessor, answlog or debug logging).
+func genEngSizes(r *vh.Rand) string {
+	gun := r.Pick([]string{"scenario", "scenario", "scenario", "http"})
+	n, iters := r.Range(1, 4), 1
+	if gun == "scenario" {
+		iters = r.Range(1, 2)
+	}
+	at := r.Intn(2)
+	if at >= n {
+		at = 0
+	}
+	line := fmt.Sprintf("eng %s %s 1 0 %s %d %d", gun, vh.B(r.Chance(2, 3)), genOpts(r), iters, n)
+	for i := 0; i < n; i++ {
+		if i != at {
+			st := "status ok 200 1 " + vh.HexS("ok") + " - - - -"
+			if gun == "scenario" && r.Chance(1, 2) {
+				st = "status ok 200 1 " + vh.HexS(jsonOK) + " - j:1 - -"
+			}
+			line += " " + st
+			continue
+		}
+		body := r.Pick([]string{"hello", "", jsonOK, "x", htmlOK})
+		beh, conn, status, bodyok := genSizeLie(r, body, false)
+		tok, pp := "", "-"
+		if gun == "scenario" && conn == "ok" {
+			switch r.Intn(6) {
+			case 0, 1:
+				tok, pp = r.Pick(tokVals[1:10]), "h:-"
+			case 2:
+				pp = "j:" + vh.B(body == jsonOK)
+			case 3:
+				pp = fmt.Sprintf("a:%d:%s", r.PickInt([]int{0, 200}), vh.HexS("ok"))
+			case 4:
+				pp = "x:nodeset"
+			}
+		}
+		line += fmt.Sprintf(" %s %s %d %d %s %s %s - -", beh, conn, status, bodyok, vh.HexS(body), vh.HexS(tok), pp)
+	}
+	return line
+}
+
 func gen(r *vh.Rand, tier string) []string {
 	thorough := tier == "thorough"
 	nUnit, nEng := 400, 60
@@ -397,6 +530,12 @@ func gen(r *vh.Rand, tier string) []string {
 	}
 	for i := 0; i < nEng; i++ {
 		out = append(out, genEng(r, thorough))
+	}
+	for i := 0; i < nEng/2+2; i++ {
+		out = append(out, genEngSizes(r))
+	}
+	for i := 0; i < nEng/10; i++ {
+		out = append(out, genEngNamed(r))
 	}
 	// grpc gun: the target goes away after <downat> calls while the startup schedule still creates instances
 	for i := 0; i < nEng/15; i++ {
